@@ -61,6 +61,12 @@ class Check:
         self.notes = []
         self._distinct = set()
         self.kf = json.load(open(os.path.join(VERIF, "known_findings.json")))
+        rd = os.path.join(VERIF, "replays")
+        if os.path.isdir(rd):
+            for f in os.listdir(rd):
+                if f.startswith(pid + "-") and f.endswith(".json"):
+                    try: os.remove(os.path.join(rd, f))
+                    except OSError: pass
         self.finished = False
 
     # ------------------------------------------------------------------ misc
@@ -249,7 +255,8 @@ class Check:
                 shutil.copy(os.path.join(gen, m + ext), bd)
                 srcs.append(m + ext)
         drv = open(os.path.join(VERIF, "ocaml", name + ".ml")).read()
-        drv = drv.replace("(*#include conv*)", open(os.path.join(VERIF, "ocaml", "conv.inc")).read())
+        for inc in ("conv", "convz", "convn"):
+            drv = drv.replace("(*#include %s*)" % inc, open(os.path.join(VERIF, "ocaml", inc + ".inc")).read())
         open(os.path.join(bd, name + ".ml"), "w").write(drv)
         srcs.append(name + ".ml")
         rc, o, e = sh(["ocamlfind", "ocamlopt", "-O3", "-w", "-a", "-package", "str", "-linkpkg"] + srcs + ["-o", exe], cwd=bd, timeout=900)
@@ -344,7 +351,9 @@ class Check:
         for k in self.known_seen:
             print("KNOWN-FINDING: property=%s %s" % (self.pid, k["what"]))
         lines = []
-        for i, v in enumerate(self.violations):
+        if len(self.violations) > 12:
+            self.notes.append("%d distinct violations found; only the first 12 are reported" % len(self.violations))
+        for i, v in enumerate(self.violations[:12]):
             tag = "%s-%d" % (self.pid, i) if v["found_input"] else "%s-unproved-%d" % (self.pid, i)
             path = os.path.join(VERIF, "replays", tag + ".json")
             json.dump({"property": self.pid, "seed": self.seed, "tier": self.tier, "what": v["what"],
